@@ -96,17 +96,15 @@ def datagramsDirect (k : Consts) (pmtu : Int) (c : Cipher) (data : Bytes) : List
 def flushDatagrams (buffered : List Nat) : List Nat :=
   if buffered.sum = 0 then [] else [buffered.sum]
 
-inductive WriteToResult where
-  /-- `len(b) > maxPayload`: refused, nothing sent -/
-  | tooLarge
-  /-- datagram sizes sent -/
-  | sent (datagrams : List Nat)
-deriving Repr, DecidableEq
+/-- `Conn.WriteTo` / `Conn.Write` on an established connection: both end in
+`writeRecordLocked(recordTypeApplicationData, b)`; neither refuses a payload above
+`maxPayload` (it is split) and an empty payload sends nothing -/
+def writeTo (k : Consts) (pmtu : Int) (c : Cipher) (b : Bytes) : List Nat :=
+  datagramsDirect k pmtu c b
 
-/-- `Conn.WriteTo` on an established connection: refuses payloads above `maxPayload`,
-otherwise `writeRecordLocked(applicationData, b)` -/
-def writeTo (k : Consts) (pmtu : Int) (c : Cipher) (b : Bytes) : WriteToResult :=
-  if b.length > maxPayloadSizeForWrite k pmtu c then .tooLarge
-  else .sent (datagramsDirect k pmtu c b)
+/-- a handshake flight: the records are buffered (`buffering = true`) and `flush` hands
+their concatenation to the `PacketConn` as one datagram -/
+def flightDatagrams (k : Consts) (pmtu : Int) (c : Cipher) (msgs : List Bytes) : List Nat :=
+  flushDatagrams ((msgs.map fun d => (datagramsDirect k pmtu c d).sum))
 
 end Gotlcp.Model.DtlcpTx
